@@ -109,6 +109,100 @@ func H_C03_raw(v *V) {
 	}
 }
 
+// H_C03_items: vectors built from k items of symbolic class (known flag,
+// option with attached / separate value, cluster, plain word, unknown short
+// and long option, unknown member in a cluster, terminator, command word,
+// empty string) with symbolic filler bytes, against the reference parse.
+func H_C03_items(v *V) {
+	variant := v.Shape("variant")
+	k := v.Shape("k")
+	opts := PassDoubleDash | vOptions(v, IgnoreUnknown, PassAfterNonOption)
+	var argv []string
+	for i := 0; i < k; i++ {
+		switch v.Choice(11) {
+		case 0:
+			argv = append(argv, "-a")
+		case 1:
+			x := v.String(1)
+			v.Assume(x[0] != '"')
+			argv = append(argv, "--bb="+x)
+		case 2:
+			x := v.String(1)
+			v.Assume(x[0] != '"' && x[0] != '-')
+			argv = append(argv, "-b", x)
+		case 3:
+			argv = append(argv, "-aa")
+		case 4:
+			w := v.String(1)
+			v.Assume(w[0] != '-')
+			argv = append(argv, "w"+w)
+		case 5:
+			argv = append(argv, "-x")
+		case 6:
+			argv = append(argv, "--zz")
+		case 7:
+			argv = append(argv, "-ax")
+		case 8:
+			argv = append(argv, "--")
+		case 9:
+			argv = append(argv, "cmd")
+		case 10:
+			argv = append(argv, "")
+		}
+	}
+	sp := refSpec{flags: []string{"-a", "--aa"}, argopts: []string{"-b", "--bb"}}
+	var p *Parser
+	var pos func() []string
+	var execLog []string
+	switch variant {
+	case 0:
+		o := &c03P0{}
+		p = NewNamedParser("prog", opts)
+		p.AddGroup("Application Options", "", o)
+		pos = func() []string { return nil }
+	case 1:
+		sp.npos = 1
+		o := &c03P1{}
+		p = NewNamedParser("prog", opts)
+		p.AddGroup("Application Options", "", o)
+		pos = func() []string { return []string{o.Pos.X} }
+	case 2:
+		sp.npos, sp.rest = 1, true
+		o := &c03P2{}
+		p = NewNamedParser("prog", opts)
+		p.AddGroup("Application Options", "", o)
+		pos = func() []string { return append([]string{o.Pos.X}, o.Pos.R...) }
+	case 3:
+		sp.cmds = []string{"cmd"}
+		o := &c03P3{}
+		o.Cmd.log = &execLog
+		p = NewNamedParser("prog", opts)
+		p.AddGroup("Application Options", "", o)
+		pos = func() []string { return nil }
+	}
+	rest, err := p.ParseArgs(append([]string{}, argv...))
+	ref := refParse(sp, opts, argv)
+	v.Assume(!ref.skip)
+	v.ObserveBool("ok", err == nil)
+	v.Assert((err == nil) == ref.ok, "the parse succeeds exactly when the reference accepts the vector")
+	if err != nil || !ref.ok {
+		v.Reach("error")
+		return
+	}
+	v.Reach("success")
+	v.ObserveStrs("rest", rest)
+	v.Assert(v.EqStrs(rest, ref.rest), "remaining arguments are exactly the unconsumed tokens in order")
+	want := ref.pos
+	if (variant == 1 || variant == 2) && len(want) == 0 {
+		want = []string{""}
+	}
+	v.Assert(v.EqStrs(pos(), want), "positional arguments receive the passed-through tokens first")
+	if variant == 3 {
+		v.Assert(v.EqStrs(execLog, append([]string{"!"}, ref.rest...)), "the executed command receives exactly the remaining arguments")
+	}
+}
+
 func init() {
 	vHarnesses["H_C03_raw"] = H_C03_raw
+	vHarnesses["H_C03_items"] = H_C03_items
 }
